@@ -462,6 +462,49 @@ func slotValue(sl *mdSlot, mode int, rng *Rng) proto.Value {
 	return proto.Value{}
 }
 
+// typedRandomMesg: a random message of table t: a subset of its slots (some twice; valid / invalid / boundary values, now and
+// then a value of another type), unknown and named fields of arbitrary numbers in between, developer fields; one time in
+// nilEvery (0 = never) a field without FieldBase (NewXxx panics).
+func typedRandomMesg(t *mdTable, r *Rng, pv []proto.Value, nilEvery int) proto.Message {
+	var m proto.Message
+	m.Num = t.num
+	p := 1 + r.Intn(4)
+	for i := range t.slots {
+		if r.Intn(p) != 0 {
+			continue
+		}
+		sl := &t.slots[i]
+		reps := 1
+		if r.Intn(8) == 0 {
+			reps = 2
+		}
+		for ; reps > 0; reps-- {
+			v := slotValue(sl, []int{0, 0, 0, 1, 2}[r.Intn(5)], r)
+			if r.Intn(12) == 0 {
+				v = pv[r.Intn(len(pv))]
+			}
+			m.Fields = append(m.Fields, stdField(t, sl.num, v, r.Intn(4) == 0))
+		}
+		if r.Intn(6) == 0 {
+			k := r.Intn(256)
+			if r.Bool() {
+				m.Fields = append(m.Fields, unknownField(k, pv[r.Intn(len(pv))], r.Intn(4) == 0))
+			} else {
+				m.Fields = append(m.Fields, namedField(k, pv[r.Intn(len(pv))], r.Intn(4) == 0))
+			}
+		}
+	}
+	if r.Intn(3) == 0 {
+		r.shuffleFields(m.Fields)
+	}
+	if nilEvery > 0 && r.Intn(nilEvery) == 0 {
+		m.Fields = append(m.Fields, proto.Field{Value: proto.Uint8(1)}) // nil FieldBase: Reset panics
+		count("nil-fieldbase")
+	}
+	m.DeveloperFields = randomDevFields(r)
+	return m
+}
+
 func genTyped(emit func(string), tier string, rng *Rng) {
 	ts, err := allTables()
 	if err != nil {
@@ -510,45 +553,7 @@ func genTyped(emit func(string), tier string, rng *Rng) {
 			count("number-sweep")
 		}
 		// random messages: subsets of the slots (some twice), unknown fields in between, developer fields, all options
-		randomMesg := func() proto.Message {
-			var m proto.Message
-			m.Num = t.num
-			p := 1 + r.Intn(4)
-			for i := range t.slots {
-				if r.Intn(p) != 0 {
-					continue
-				}
-				sl := &t.slots[i]
-				reps := 1
-				if r.Intn(8) == 0 {
-					reps = 2
-				}
-				for ; reps > 0; reps-- {
-					v := slotValue(sl, []int{0, 0, 0, 1, 2}[r.Intn(5)], r)
-					if r.Intn(12) == 0 {
-						v = pv[r.Intn(len(pv))]
-					}
-					m.Fields = append(m.Fields, stdField(t, sl.num, v, r.Intn(4) == 0))
-				}
-				if r.Intn(6) == 0 {
-					k := r.Intn(256)
-					if r.Bool() {
-						m.Fields = append(m.Fields, unknownField(k, pv[r.Intn(len(pv))], r.Intn(4) == 0))
-					} else {
-						m.Fields = append(m.Fields, namedField(k, pv[r.Intn(len(pv))], r.Intn(4) == 0))
-					}
-				}
-			}
-			if r.Intn(3) == 0 {
-				r.shuffleFields(m.Fields)
-			}
-			if r.Intn(40) == 0 {
-				m.Fields = append(m.Fields, proto.Field{Value: proto.Uint8(1)}) // nil FieldBase: Reset panics
-				count("nil-fieldbase")
-			}
-			m.DeveloperFields = randomDevFields(r)
-			return m
-		}
+		randomMesg := func() proto.Message { return typedRandomMesg(t, r, pv, 40) }
 		for j := 0; j < nRandom; j++ {
 			m := randomMesg()
 			o := typedOptStrings[r.Intn(len(typedOptStrings))]
